@@ -258,6 +258,7 @@ pub enum ObsEv {
     AddExit { key: u64, cost: i64, added: bool, victims: Option<Vec<(u64, i64)>>, max_cost: i64, used: i64, key_costs: Vec<(u64, i64)> },
     Push { keys: Vec<u64>, kept: bool, queue_len: usize, closed: bool },
     Applied { keys: Vec<u64> },
+    CostUpdate { key: u64, prev: i64, cost: i64 },
 }
 
 #[derive(Serialize, Deserialize, Clone, Debug)]
@@ -301,6 +302,7 @@ fn obs_sink(o: Obs) {
         Obs::AddExit { key, cost, added, victims, max_cost, used, key_costs } => ObsEv::AddExit { key, cost, added, victims, max_cost, used, key_costs },
         Obs::Push { keys, kept, queue_len, closed } => ObsEv::Push { keys, kept, queue_len, closed },
         Obs::Applied { keys } => ObsEv::Applied { keys },
+        Obs::CostUpdate { key, prev, cost } => ObsEv::CostUpdate { key, prev, cost },
     };
     log(EvKind::Obs(e));
 }
@@ -576,6 +578,12 @@ pub fn build(cfg: &Cfg) -> Result<Box<dyn Api>, String> {
 // ------------------------------------------------------------------------------------------
 
 fn snap_of(api: &dyn Api, universe: &[u64], kb: &HKb) -> Snap {
+    snap_of_q(api, universe, kb, true)
+}
+
+/// `quiescent = false`: another task may be parked while holding a shard lock, so only the
+/// non-blocking snapshot is used (len and max_cost are derived from it).
+fn snap_of_q(api: &dyn Api, universe: &[u64], kb: &HKb, quiescent: bool) -> Snap {
     rt::atomic(|| {
         let idx: Vec<u64> = {
             let mut v: Vec<u64> = universe.iter().map(|k| kb.of(*k).0).collect();
@@ -584,6 +592,8 @@ fn snap_of(api: &dyn Api, universe: &[u64], kb: &HKb) -> Snap {
             v
         };
         let s = api.snapshot(&idx);
+        let s_len = s.entries.as_ref().map_or(0, |e| e.len());
+        let s_max = s.policy.as_ref().map_or(0, |p| p.0);
         Snap {
             entries: s.entries.map(|es| {
                 es.into_iter()
@@ -598,8 +608,8 @@ fn snap_of(api: &dyn Api, universe: &[u64], kb: &HKb) -> Snap {
             item_size: s.item_size,
             is_closed: s.is_closed,
             policy_closed: s.policy_closed,
-            len: api.len(),
-            max_cost_api: api.max_cost(),
+            len: if quiescent { api.len() } else { s_len },
+            max_cost_api: if quiescent { api.max_cost() } else { s_max },
             metrics: api.metrics(),
             tasks: rt::task_states(),
         }
@@ -669,8 +679,18 @@ pub fn do_op(api: &dyn Api, client: usize, idx: usize, op: &Op) {
         Ok(r) => r,
         Err(p) => Res::Panic(rt::panic_msg(&p)),
     };
+    if matches!(op, Op::Wait) && matches!(res, Res::Unit) {
+        // the barrier oracle (C10) needs the state at the very instant wait() returns
+        let ctx = SNAP_CTX.lock().unwrap_or_else(|e| e.into_inner()).clone();
+        if let Some((universe, keys)) = ctx {
+            let snap = snap_of_q(api, &universe, &HKb(keys), false);
+            log(EvKind::Checkpoint { id: usize::MAX, snap, quiescent: false });
+        }
+    }
     log(EvKind::Ret { client, idx, res });
 }
+
+static SNAP_CTX: Mutex<Option<(Vec<u64>, KeyMode)>> = Mutex::new(None);
 
 struct Shared {
     /// number of clients currently waiting at the barrier (or finished)
@@ -683,6 +703,7 @@ struct Shared {
 /// The body of task 0.
 pub fn run_plan(plan: &Plan) {
     stretto_sim_rt::obs::set_sink(Box::new(obs_sink));
+    *SNAP_CTX.lock().unwrap_or_else(|e| e.into_inner()) = if plan.has_tag("snap_at_wait") { Some((plan.universe.clone(), plan.cfg.keys.clone())) } else { None };
     let kb = HKb(plan.cfg.keys.clone());
     let built = catch_unwind(AssertUnwindSafe(|| build(&plan.cfg)));
     let api: Box<dyn Api> = match built {
@@ -769,6 +790,20 @@ pub fn run_plan(plan: &Plan) {
     log(EvKind::Checkpoint { id: cp, snap, quiescent: true });
     cp += 1;
 
+    if plan.has_tag("final_probe") {
+        // C20: the workers are alive in the only sense that matters
+        let k = 7_777_777u64;
+        do_op(api.as_ref(), 98, 0, &Op::Insert { k, cost: 1, ttl_ns: 0, size: 1 });
+        do_op(api.as_ref(), 98, 1, &Op::Wait);
+        do_op(api.as_ref(), 98, 2, &Op::Get { k, hold: 0 });
+        do_op(api.as_ref(), 98, 3, &Op::Remove { k });
+        do_op(api.as_ref(), 98, 4, &Op::Wait);
+        do_op(api.as_ref(), 98, 5, &Op::Get { k, hold: 0 });
+        rt::quiesce();
+        let snap = snap_of(api.as_ref(), &plan.universe, &kb);
+        log(EvKind::Checkpoint { id: cp, snap, quiescent: true });
+        cp += 1;
+    }
     match plan.finale {
         Finale::None => {
             std::mem::forget(api);
@@ -793,7 +828,7 @@ pub fn run_plan(plan: &Plan) {
             drop(api);
             // give the workers a fair chance to notice: they need scheduling points
             for _ in 0..2000 {
-                rt::yield_now();
+                rt::yield_fair();
                 let t = rt::task_states();
                 if t.iter().filter(|(n, _)| n.starts_with("processor") || n.starts_with("policy_worker")).all(|(_, s)| s == "finished" || s.starts_with("panicked")) {
                     break;
